@@ -5,7 +5,7 @@ from comp import Comp
 from props.c08 import op_kinds
 
 
-def check_cross(C, drv, gp, fa, mo, pf, pm, np, parents=None):
+def check_cross(C, drv, gp, fa, mo, pf, pm, np, parents=None, hist=None):
     terms = [np.array([[0.25]]), np.array([[0.75]])]
     if parents is not None:
         father, mother = parents
@@ -27,6 +27,9 @@ def check_cross(C, drv, gp, fa, mo, pf, pm, np, parents=None):
     finally:
         sc.remove()
     rp = dict(how='cross', father=T.enc_tree(father), mother=T.enc_tree(mother), pf=pf, pm=pm)
+    if hist:
+        # the parents are offspring of earlier crossovers: the replay re-runs the whole history
+        rp['history'] = list(hist)
     # model
     out = drv.ask(f't.cross {T.enc_tree(father)} {T.enc_tree(mother, base=100)} {pf} {pm}')
     real = T.canon(o1) + ' ' + T.canon(o2)
@@ -52,6 +55,7 @@ def check_cross(C, drv, gp, fa, mo, pf, pm, np, parents=None):
     exchanged = sf is not None and sm is not None
     C.case(key=('cross', fb, mb, pf, pm), nontrivial=exchanged, kind=('cross-exchange' if exchanged else 'cross-no-slot') + ('-gen2' if parents is not None else ''),
            sample=dict(rp, offspring=real) if exchanged and nf >= 4 and nm >= 4 else None)
+    o1._c09_hist = o2._c09_hist = (hist or []) + [dict(father=rp['father'], mother=rp['mother'], pf=pf, pm=pm)]
     return o1, o2
 
 
@@ -162,6 +166,18 @@ def check_repro(C, drv, gp, n, fitness, selected):
                 C.issue('reproduction-shares-nodes', 'oracle', rp, slot=i)
             elif any(np.shares_memory(a.position, o.position) for o in old_agents):
                 C.issue('reproduction-shares-position', 'oracle', rp, slot=i)
+    # ... and every slot holds its own objects: no tree, node, agent or position array in two slots
+    for i in range(len(sp.trees)):
+        for j in range(i + 1, len(sp.trees)):
+            if sp.trees[i] is sp.trees[j] or sp.agents[i] is sp.agents[j]:
+                C.issue('reproduction-same-object-in-two-slots', 'oracle', rp, slots=[i, j])
+                break
+            if set(gpops.node_ids(sp.trees[i])) & set(gpops.node_ids(sp.trees[j])):
+                C.issue('reproduction-shares-nodes', 'oracle', rp, slots=[i, j])
+                break
+            if np.shares_memory(sp.agents[i].position, sp.agents[j].position):
+                C.issue('reproduction-shares-position', 'oracle', rp, slots=[i, j])
+                break
     # worst-ranked first when every fitness is positive (K12 otherwise)
     if all(f > 0 for f in fitness) and len(selected) <= n:
         work = list(fitness)
@@ -202,9 +218,15 @@ def check(ctx):
             if not r1:
                 continue
             o1, o2 = r1
-            r2 = check_cross(C, drv, gp, None, None, C.rng.randint(1, o1.n_nodes), C.rng.randint(1, o2.n_nodes), np, parents=(o1, o2))
+            # second generation: every point of either offspring once (the other point fixed), so a slot that the
+            # first exchange left in a wrong state is selected whichever node carries it
+            r2 = None
+            for pm in range(1, o2.n_nodes + 1):
+                r2 = check_cross(C, drv, gp, None, None, C.rng.randint(1, o1.n_nodes), pm, np, parents=(o1, o2), hist=o1._c09_hist) or r2
+            for pf in range(1, o1.n_nodes + 1):
+                r2 = check_cross(C, drv, gp, None, None, pf, C.rng.randint(1, o2.n_nodes), np, parents=(o1, o2), hist=o1._c09_hist) or r2
             if r2:
-                check_cross(C, drv, gp, None, None, C.rng.randint(1, r2[0].n_nodes), C.rng.randint(1, r2[1].n_nodes), np, parents=r2)
+                check_cross(C, drv, gp, None, None, C.rng.randint(1, r2[0].n_nodes), C.rng.randint(1, r2[1].n_nodes), np, parents=r2, hist=r2[0]._c09_hist)
         if ctx['tier'] == 'thorough':
             d3 = T.shapes_upto(3)
             for k in range(1500):
@@ -250,6 +272,16 @@ def replay(prop, payload):
     try:
         if payload['how'] == 'cross':
             f, m = decode(payload['father']), decode(payload['mother'])
+            if payload.get('history'):
+                # re-run the earlier crossovers on the real code: their offspring are this step's parents
+                h0 = payload['history'][0]
+                f, m = decode(h0['father']), decode(h0['mother'])
+                for st in payload['history']:
+                    sc = gpops.Script(random.Random(0), forced=[st['pf'], st['pm']]).install()
+                    try:
+                        f, m = gp._cross(f, m, f.n_nodes, m.n_nodes)
+                    finally:
+                        sc.remove()
             fb, mb = T.canon(f), T.canon(m)
             fstruct, mstruct = gpops.struct(f), gpops.struct(m)
             sf, sm = gpops.slot_of(f, payload['pf']), gpops.slot_of(m, payload['pm'])
